@@ -593,7 +593,7 @@ PROPS = {
                   "C16_ptr_len_covers_refuted", "C16_ptr_len_covers_fails",
                   "C16_bind_getsockname_roundtrip_except_unix",
                   "C16_sockaddr_roundtrip_fixed", "C16_ptr_len_covers_family_struct_fixed",
-                  "C16_bind_getsockname_roundtrip_fixed"],
+                  "C16_bind_getsockname_roundtrip_fixed", "C16_unix_unnamed_every_reported_length", "C16_unix_length_zero_h29_refuted"],
         rule="sweep first: Unix pathnames of every length 1..107 and abstract names of every length 0..107 "
              "(2 each, bytes from three styles incl. non-UTF-8 and embedded/trailing NULs for names), unnamed, "
              "NoAddress, 10 boundary ports x 4 IPv4 addresses and x 16 (flowinfo, scope_id) boundary pairs for IPv6, "
